@@ -64,7 +64,10 @@ int strCmp(const char* str1, const char* str2)
 {
 	ASSERT(strIsValid(str1));
 	ASSERT(strIsValid(str2));
-	return strcmp(str1, str2);
+	{
+		int cmp = strcmp(str1, str2);
+		return (cmp > 0) - (cmp < 0);
+	}
 }
 
 void strSet(char* str, char ch)
